@@ -3,7 +3,7 @@
 use minijinja::value::Value;
 use minijinja::{context, Environment, State};
 
-pub const NPROGS: i64 = 51;
+pub const NPROGS: i64 = 53;
 
 pub fn rep(s: &str, n: i64) -> String {
     s.repeat(n.max(0) as usize)
@@ -249,6 +249,39 @@ pub fn program(id: i64, n: i64, m: i64, _k: i64) -> Vec<(String, String)> {
             "main",
             "{% for i in items %}{{ i }}{% endfor %}{{ probe() }}{% macro f(x) %}{{ x }}{{ probe() }}{{ x.nope }}{% endmacro %}{% if k > 2 %}{{ f(d) }}{% endif %}{{ probe() }}{{ undefinedvar }}after".into(),
         )],
+        // engine-imposed size limits (selected by (k + 5 (m % 2)) % 10; inside a macro when n is odd): the failure must be the same with and without a budget
+        51 => {
+            let fail = match (_k + 5 * (m % 2)).rem_euclid(10) {
+                0 => "{{ range(100001)|length }}",
+                1 => "{{ range(0, -100001, -1)|length }}",
+                2 => "{{ range(0, 200002, 2)|length }}",
+                3 => "{{ range(lim)|length }}",
+                4 => "{% for i in range(100001) %}{{ i }}{% endfor %}",
+                5 => "{{ ('ab' * 50000001)|length }}",
+                6 => "{{ 'ab' * lim2 }}",
+                7 => "{{ [1]|slice(100001)|list|length }}",
+                8 => "{{ '%40000d'|format(1)|length }}",
+                _ => "{{ 'x'|indent(100000001)|length }}",
+            };
+            let inner = format!("ok{{{{ range(100000)|length }}}}{{{{ ('ab' * 5)|length }}}}{{{{ probe() }}}}{}never", fail);
+            let src = if n % 2 == 1 {
+                format!("{{% macro lim_mac() %}}{}{{% endmacro %}}{{% for i in items %}}{{{{ i }}}}{{% endfor %}}{{{{ probe() }}}}{{{{ lim_mac() }}}}", inner)
+            } else {
+                format!("{{% for i in items %}}{{{{ i }}}}{{% endfor %}}{{{{ probe() }}}}{}", inner)
+            };
+            vec![t("main", src)]
+        }
+        // templates with nothing to evaluate: text only, text split by comments, raw blocks only
+        52 => vec![t(
+            "main",
+            match _k.rem_euclid(5) {
+                0 => rep("just text ", n + 1),
+                1 => rep("a{# comment #}b", n + 1),
+                2 => format!("{{% raw %}}{{{{ not evaluated }}}}{}{{% endraw %}}", rep("r", n)),
+                3 => format!("x{{# c #}}{{% raw %}}{{% raw2 %}}{{% endraw %}}{}{{#- d -#}}  y", rep("t", m)),
+                _ => "{# only a comment #}".to_string(),
+            },
+        )],
         // combination: a parent block that includes and calls macros, reached through super() in value position from a macro of the child
         _ => vec![
             t("main", "{% extends 'mid' %}{% block body %}{% set s = super() %}{{ s|length }}{{ callit(deco, super()) }}{{ probe() }}{% endblock %}".into()),
@@ -342,5 +375,6 @@ pub fn ctx(n: i64, m: i64, k: i64) -> Value {
         parent => format!("p{}", k % 2),
         tree => tree(m.min(3), n),
         d => context! { x => n, y => "why" },
+        lim => 100001, lim2 => 50000001,
     }
 }
